@@ -2,7 +2,7 @@
 // operation has the semantics of its std counterpart.
 pub mod async_std {
     pub mod fs {
-        pub use crate::shims::std::fs::{File, read, copy, remove_file, create_dir_all, OpenOptions, DirBuilder};
+        pub use crate::shims::std::fs::{File, read, copy, remove_file, create_dir_all, OpenOptions, DirBuilder, metadata};
     }
     pub mod io {
         pub use crate::shims::std::io::BufReader;
@@ -17,7 +17,10 @@ pub mod async_std {
 pub mod futures {
     pub mod io {
         pub trait AsyncRead { }
-        pub trait AsyncReadExt { }
+        /// R2: `AsyncReadExt::read(&mut r, buf).await` becomes a blocking call
+        pub trait AsyncReadExt {
+            fn read(&mut self, buf: &mut [u8]) -> crate::shims::std::io::Result<usize>;
+        }
         pub trait AsyncBufReadExt { }
         pub trait AsyncWrite { }
         pub trait AsyncWriteExt { }
